@@ -85,6 +85,7 @@ def make_cfg(seed, i):
             up["growing.do_geom_steps"] = True
         if r() < 0.3:
             up["growing.reset_delta"] = True
+    campaign.maybe_failpoint(cfg, rng, p=0.12)
     return cfg
 
 
